@@ -310,3 +310,62 @@ def data_export(cx, ext, cplx, dim, axis, N=3):
     if axis:
         cx.prove_eq(label + "_axis", numpy.asarray(ax2.data), axdata, tol=1e-12)
         cx.prove_eq("exported_axis_unchanged", numpy.asarray(ax.data), axdata)
+
+
+PROGRAMS_DIR = {
+    "one_dir": [(0, 0), (1, 0)],
+    "two_dirs": [(0, 0), (0, 1)],
+    "two_dirs_two_objects": [(0, 0), (1, 1), (1, 0)],
+    "back_and_forth": [(0, 0), (0, 1), (0, 0), (1, 1)],
+    "three_dirs": [(0, 0), (1, 1), (0, 2), (1, 0)],
+}
+
+
+@harness("C18", "directory_saving",
+         quick=[dict(prog=p) for p in ("one_dir", "two_dirs", "two_dirs_two_objects")],
+         thorough=[dict(prog=p) for p in PROGRAMS_DIR],
+         functions=[F_S + ":Saveable.savedir", F_S + ":Saveable.loaddir", F_S + ":Saveable.save", F_P + ":Parcel.save",
+                    F_P + ":load_parcel"],
+         bound="histories of up to 4 savedir() calls of two operators (symbolic data, changed between saves) into up "
+               "to 3 fresh directories of the real file system, then loaddir() of every directory: it returns exactly "
+               "the objects saved there, under the tags 1..k in saving order, with the data they had when saved; "
+               "pickling is the deep-copy stub (replay: the real dill)",
+         out="explicit tags; unitedir")
+def directory_saving(cx, prog):
+    import quantarhei as qr
+    steps = PROGRAMS_DIR[prog]
+    objs = []
+    for i in range(2):
+        with cx.concrete():
+            o = qr.qm.Operator(dim=2, real=False)
+        o._data = cx.hermitian("X%d" % i, 2).copy()
+        objs.append(o)
+    base = tempfile.mkdtemp(prefix="c18dir_")
+    want = {}
+    try:
+        with pickle_as_deepcopy(cx):
+            for n, (oi, di) in enumerate(steps):
+                d = os.path.join(base, "dir%d" % di)
+                # the object's content changes between saves, so that a stale copy is visible
+                objs[oi]._data = objs[oi]._data + (n + 1)
+                want.setdefault(di, []).append(objs[oi]._data.copy())
+                try:
+                    objs[oi].savedir(d)
+                except Exception as e:      # noqa: BLE001
+                    cx.fail("savedir_step_%d" % n, "%s: %s" % (type(e).__name__, str(e)[:120]))
+                    return
+            for di, datas in sorted(want.items()):
+                d = os.path.join(base, "dir%d" % di)
+                try:
+                    got = objs[0].loaddir(d)
+                except Exception as e:      # noqa: BLE001
+                    cx.fail("loaddir_%d" % di, "%s: %s" % (type(e).__name__, str(e)[:120]))
+                    continue
+                cx.prove("loaddir_%d_tags" % di, list(got.keys()) == list(range(1, len(datas) + 1)))
+                if list(got.keys()) != list(range(1, len(datas) + 1)):
+                    continue
+                for k, ref in enumerate(datas):
+                    cx.prove_eq("loaddir_%d_object_%d" % (di, k + 1), got[k + 1]._data, ref, tol=1e-12)
+    finally:
+        import shutil
+        shutil.rmtree(base, ignore_errors=True)
